@@ -19,6 +19,7 @@ two facts the proofs need: no prime factor below 200, not a perfect square.
 -/
 import Ymq.Lemmas.Qsieve64Total
 import Ymq.Props.C11
+import Ymq.Lemmas.FactorClosed
 import Mathlib.Algebra.GCDMonoid.Nat
 import Mathlib.Tactic.IntervalCases
 
@@ -307,6 +308,27 @@ theorem qs64_square_nk_counterexample :
         (match candidate c (blockOffset c 0) c.bsize with | .error .fuel => true | _ => false)
       | _ => false) = true := by
   decide +kernel
+
+/-! ## closing the oracle hypothesis `UsesQs64` of the control-flow model -/
+
+/-- the `qs64` field of an oracle of the `Factor` model answers with the model of `qsieve`, for some
+multiplier, kernel vectors and primality answers, on a 64-bit `n` such that neither `n` nor `n·k` is
+a perfect square (every `n` that `factor_impl` passes, `admissible_of_guards` and
+`admissible_not_square`) -/
+def Qs64IsModel {σ : Type} (o : Ymq.Factor.Oracle σ) : Prop :=
+  ∀ t n a b, (o.qs64 t n).1 = some (a, b) →
+    ∃ k kernel isPrime, n < 2 ^ 64 ∧ (∀ s : Nat, n ≠ s * s) ∧ (∀ s : Nat, n * k ≠ s * s) ∧
+      qsieve n k kernel isPrime = .ok (some (a, b))
+
+/-- … then the hypothesis `UsesQs64` of Ymq/Lemmas/FactorClosed.lean (so far tied to the code only
+by the exploration of C01) holds: "whatever `qs64` returns comes out of the modelled `final_step`". -/
+theorem usesQs64_of_model {σ : Type} (o : Ymq.Factor.Oracle σ) (h : Qs64IsModel o) :
+    Ymq.Factor.UsesQs64 o := by
+  intro t n a b hq
+  obtain ⟨k, kernel, isPrime, hn, hsq, hnk, hm⟩ := h t n a b hq
+  obtain ⟨fb, rels, kernel', isPrime', slots, cnt, ds, h1, h2, h3, _⟩ :=
+    qs64_uses_final_step n k kernel isPrime a b hn hsq hnk hm
+  exact ⟨fb, rels, kernel', isPrime', slots, cnt, ds, h1, h2, h3⟩
 
 /-! ## (c) non-vacuity on concrete inputs -/
 
